@@ -889,7 +889,7 @@ def run(ctx):
     lines = ctx.generate('MC_Calendar', 'MC_Calendar_gen_quick.cfg' if q else 'MC_Calendar_gen_thorough.cfg', env=seed)
     ctx.extra['arith_families'] = check_families(lines)
     spread(ctx, s2c_arith, lines)
-    spread(ctx, s2c_registry, simulate_histories(ctx, 4, 300 if q else 3000, 7))
+    spread(ctx, s2c_registry, simulate_histories(ctx, 4, 450 if q else 3000, 7))
     c2s(ctx, 160 if q else 1600, 150, 60 if q else 600, 150 if q else 1500, 24)
     ctx.exhaustive = False
     ctx.assumptions += [
@@ -902,7 +902,7 @@ def run(ctx):
         'calendar(obj, ...) derives from obj (given replaces, not given is kept); the convention of a derived calendar is not pinned',
         'calendar(key) on a key that was never registered is not asked; handles kept from earlier registrations are not queried '
         '(but may be registered again with calendar(handle)); calendars with the default 400-year range are asked loop-path questions only',
-        'small scope: MC windows of 7 (quick: seeded 1-in-10 sample of 6 families) / 10 (thorough: exhaustive) days, n in -8..8; registry MC with <= 2 '
-        '(quick) / 3 (thorough) objects',
+        'small scope: MC windows of 7 (quick: a seeded 1-in-15 sample of 9 families = 3 month ends x 3 kinds of range) / 10 (thorough: exhaustive; '
+        'all 18 families of 7-day windows: 1 in 3) days, n in -8..8; registry MC with <= 2 (quick) / 3 (thorough, one key) objects',
         'drange is asked with bump 1b only (forwards, single-day and backwards)',
     ]
